@@ -13,11 +13,20 @@ import trajexec
 TU = 64
 
 
-def _build(poses, built, u, kind="path"):
-    return trajexec.build([(p["r"], p["p"]) for p in poses], list(range(len(poses))), built, trajexec.Gamma(u), kind)
+FAR = np.array([2.0 ** 20, -2.0 ** 21, 2.0 ** 20])
 
 
-def _poses(t, gm):
+def _build(poses, built, u, kind="path", far=False):
+    t = trajexec.build([(p["r"], p["p"]) for p in poses], list(range(len(poses))), built, trajexec.Gamma(u), kind)
+    if far:      # same poses at UTM-like coordinates (a pure translation of both trajectories)
+        t.transform(geom.se3(np.eye(3), FAR * u))
+    return t
+
+
+def _poses(t, gm, far=False):
+    if far:
+        t = copy.deepcopy(t)
+        t.transform(geom.se3(np.eye(3), -FAR * gm.u))
     posm, rotm = trajexec.read_se3(t, gm)
     pos = trajexec.read_pos(t, gm)
     rq = trajexec.read_quat(t)
@@ -28,11 +37,13 @@ def _poses(t, gm):
     return out
 
 
-def _ret(r, t, s, u):
+def _ret(r, t, s, u, mag=0.0):
+    """alpha of the returned (R, t, s); t = mean_y - s R mean_x carries the rounding of R times the coordinate magnitude"""
     tt = np.asarray(t, dtype=float) / (u / TU)
     tr = np.round(tt)
     f = geom.frac(float(s), 1 << 10)
-    return {"r": geom.alpha_rot_index(np.asarray(r)), "t": [int(v) for v in tr] if np.max(np.abs(tt - tr)) < 1e-5 else [77777] * 3,
+    tol = max(1e-5, 1e-9 * mag / (u / TU))      # measured: 4e-5 lattice units at 2^21 (rotation noise 6e-12 after a first alignment)
+    return {"r": geom.alpha_rot_index(np.asarray(r)), "t": [int(v) for v in tr] if np.max(np.abs(tt - tr)) < tol else [77777] * 3,
             "s": f if f else [-1, 1]}
 
 
@@ -42,8 +53,9 @@ def exec_align(job):
     u = [1.0, 0.25, 1024.0][(n + seed) % 3]
     gm = trajexec.Gamma(u)
     kind = "traj" if n % 2 else "path"
-    ref = _build(c["ref"], "se3" if n % 3 else "pq", u, kind)
-    est = _build(c["est"], "pq" if (n // 3) % 2 else "se3", u, kind)
+    far = bool(c.get("far"))
+    ref = _build(c["ref"], "se3" if n % 3 else "pq", u, kind, far)
+    est = _build(c["est"], "pq" if (n // 3) % 2 else "se3", u, kind, far)
     pre = (n // 6) % 3
     if pre == 1:
         _ = est.positions_xyz, ref.poses_se3
@@ -58,12 +70,13 @@ def exec_align(job):
                 return None
             return est.align(ref, correct_scale=(c["mode"] == "sim"), correct_only_scale=(c["mode"] == "scale"), n=c["n"])
         r1 = call()
-        o["after"] = _poses(est, gm)
+        o["after"] = _poses(est, gm, far)
         r2 = call()
-        o["after2"] = _poses(est, gm)
+        o["after2"] = _poses(est, gm, far)
         ident = {"r": 1, "t": [0, 0, 0], "s": [1, 1]}
-        o["ret"] = _ret(*r1, u) if r1 is not None else ident
-        o["ret2"] = _ret(*r2, u) if r2 is not None else ident
+        mag = float(np.max(np.abs(FAR))) * u if far else 0.0
+        o["ret"] = _ret(*r1, u, mag) if r1 is not None else ident
+        o["ret2"] = _ret(*r2, u, mag) if r2 is not None else ident
     except GeometryException:
         o = {"out": "GeometryException", "after": [], "after2": [], "ret": {"r": -1, "t": [0, 0, 0], "s": [1, 1]}, "ret2": {"r": -1, "t": [0, 0, 0], "s": [1, 1]}}
     except Exception as e:  # noqa: BLE001
